@@ -132,6 +132,8 @@ static inline FockPair fm_entry(Bitset ket, long pos)
   return p;
 }
 #define FockMapIt_ctor0() ((FockMapIt){ {0UL, 0UL}, 0L, 0L, { {0UL, 0UL}, 0.0 } })
+#define FockMap_size(m) ((unsigned long)(m)->n)          /* std::map::size(): number of components of the image */
+#define FockMap_empty(m) ((m)->n == 0)
 #define FockMap_begin(m) ((FockMapIt){ (m)->ket, (m)->n, 0L, { {0UL, 0UL}, 0.0 } })
 #define FockMap_end(m)   ((FockMapIt){ (m)->ket, (m)->n, (m)->n, { {0UL, 0UL}, 0.0 } })
 #define FockMapIt_assign(a, b) (*(a) = (b))
